@@ -171,6 +171,17 @@ func runC07(c *Ctx) {
 	r.Doc("E11", "(= X1) every configured / added input is registered in the table under its own key, unconditionally", 4)
 	r.Doc("E12", "(= X9) v1 Simple: the supervising goroutine waits only for stop, cancel, the graceful request and the inner discipline's end", 7)
 	r.Doc("E9", "the error channel never delays termination: made with capacity >= 1 and written at most once per goroutine (reading Err() is optional)", 3)
+	// E18 (= X7): "for the simplified disciplines termination additionally implies that every Handle
+	// call has returned": the release follows the return of Handle (a release sent first lets the
+	// scheduler see nothing in flight and close its channels while Handle still runs)
+	r.Doc("E18", "(= C02 X7) simplified disciplines: Handle is called between the receive of an item and its release", 2)
+	for _, p := range []*Prog{c.V1, c.V2} {
+		sub := &Ctx{V1: c.V1, V2: c.V2, Tier: c.Tier, R: NewReport("tmp", c.Tier)}
+		c02handlers(sub, p)
+		for _, o := range sub.R.Obls {
+			r.Check(o.OK, "E18", strings.TrimPrefix(o.Key, "X7@"), o.Site, o.Detail, o.Detail)
+		}
+	}
 	// E17 (= R1, X10): v1 - an input handed to AddInput is registered when the call returns, so a
 	// GracefulStop requested after it cannot find "every input drained" without it (a queued
 	// command is dropped when the goroutine ends: GracefulStop returns with that input still open)
